@@ -79,19 +79,72 @@ func findDefinitionTarget(journal *ast.Journal, pos protocol.Position) *definiti
 				}
 			}
 
-			if p.Amount != nil && p.Amount.Commodity.Symbol != "" {
-				if positionInRange(pos, p.Amount.Commodity.Range) {
-					return &definitionTarget{
-						context:     DefContextCommodity,
-						name:        p.Amount.Commodity.Symbol,
-						symbolRange: astRangeToProtocol(p.Amount.Commodity.Range),
-					}
+			// the commodity of the amount, of the cost and of the balance assertion
+			var written []*ast.Commodity
+			if p.Amount != nil {
+				written = append(written, &p.Amount.Commodity)
+			}
+			if p.Cost != nil {
+				written = append(written, &p.Cost.Amount.Commodity)
+			}
+			if p.BalanceAssertion != nil {
+				written = append(written, &p.BalanceAssertion.Amount.Commodity)
+			}
+			for _, c := range written {
+				if t := commodityTargetAt(pos, c.Symbol, c.Range); t != nil {
+					return t
 				}
 			}
 		}
 	}
 
+	// a name is also written in the directives that declare or price it
+	for _, dir := range journal.Directives {
+		switch d := dir.(type) {
+		case ast.AccountDirective:
+			accountRange := computeAccountRange(&d.Account)
+			if d.Account.Name != "" && positionInRange(pos, accountRange) {
+				return &definitionTarget{
+					context:     DefContextAccount,
+					name:        d.Account.Name,
+					symbolRange: astRangeToProtocol(accountRange),
+				}
+			}
+		case ast.CommodityDirective:
+			if t := commodityTargetAt(pos, d.Commodity.Symbol, d.Commodity.Range); t != nil {
+				return t
+			}
+			if d.FormatSymbolRange != nil {
+				if t := commodityTargetAt(pos, d.Commodity.Symbol, *d.FormatSymbolRange); t != nil {
+					return t
+				}
+			}
+		case ast.PriceDirective:
+			if t := commodityTargetAt(pos, d.Commodity.Symbol, d.Commodity.Range); t != nil {
+				return t
+			}
+			if t := commodityTargetAt(pos, d.Price.Commodity.Symbol, d.Price.Commodity.Range); t != nil {
+				return t
+			}
+		case ast.DefaultCommodityDirective:
+			if t := commodityTargetAt(pos, d.Symbol, d.SymbolRange); t != nil {
+				return t
+			}
+		}
+	}
+
 	return nil
+}
+
+func commodityTargetAt(pos protocol.Position, symbol string, r ast.Range) *definitionTarget {
+	if symbol == "" || r.End.Line == 0 || !positionInRange(pos, r) {
+		return nil
+	}
+	return &definitionTarget{
+		context:     DefContextCommodity,
+		name:        symbol,
+		symbolRange: astRangeToProtocol(r),
+	}
 }
 
 func findDefinitionLocation(target *definitionTarget, resolved *include.ResolvedJournal, currentPath string, currentJournal *ast.Journal) *protocol.Location {
